@@ -148,6 +148,14 @@ theorem HeldP.add {nxt : Nat → Option Nat} {hd : Nat → Nat} {c : Nat} {held 
   · exact h r' k x ho
   · subst e1; subst e3; exact ⟨h1, h2, h3⟩
 
+theorem HeldP.cacheAdd {nxt : Nat → Option Nat} {hd : Nat → Nat} {c : Nat} {d : Node}
+    (h : HeldP nxt hd c d.held) (r idx ep : Nat) (h1 : r ≤ c) (h2 : BR hd r) (h3 : InLife nxt ep r) :
+    HeldP nxt hd c (d.cacheAdd r idx ep) := by
+  intro r' k x hx
+  rcases cacheAdd_entry hx with ho | ⟨e1, _, e3⟩
+  · exact h r' k x ho
+  · subst e1; subst e3; exact ⟨h1, h2, h3⟩
+
 theorem HeldP.flush {nxt : Nat → Option Nat} {hd : Nat → Nat} {c : Nat} {held : Nat → Nat → Option Nat}
     (h : HeldP nxt hd c held) (r : Nat) : HeldP nxt hd c (flush held r) :=
   fun r' k x hx => h r' k x (flush_entry hx).2
@@ -241,15 +249,15 @@ share of the node's current epoch, within that epoch's lifetime -/
 theorem saneN_aggregate {nxt : Nat → Option Nat} {hd : Nat → Nat} {c B : Nat} {d : Node} (h : SaneN nxt hd c d) (idx ep r : Nat)
     (h1 : r ≤ c) (h2 : BR hd r) (h3 : ep = d.vault.epoch) (h4 : InLife nxt ep r) :
     SaneN nxt hd c (d.aggregate B idx ep r) := by
-  have hadd : HeldP nxt hd c (addPartial d.held r idx ep) := h.heldP.add r idx ep h1 h2 h4
-  have haddE : ∀ r' k x, addPartial d.held r idx ep r' k = some x → x = d.vault.epoch := by
+  have hadd : HeldP nxt hd c (d.cacheAdd r idx ep) := h.heldP.cacheAdd r idx ep h1 h2 h4
+  have haddE : ∀ r' k x, d.cacheAdd r idx ep r' k = some x → x = d.vault.epoch := by
     intro r' k x hx
-    rcases addPartial_entry hx with ho | ⟨_, _, e3⟩
+    rcases cacheAdd_entry hx with ho | ⟨_, _, e3⟩
     · exact h.heldE r' k x ho
     · rw [e3, h3]
-  have haddH : d.head < r → ∀ r' k x, addPartial d.held r idx ep r' k = some x → d.head < r' := by
+  have haddH : d.head < r → ∀ r' k x, d.cacheAdd r idx ep r' k = some x → d.head < r' := by
     intro hlt r' k x hx
-    rcases addPartial_entry hx with ho | ⟨e1, _, _⟩
+    rcases cacheAdd_entry hx with ho | ⟨e1, _, _⟩
     · exact h.heldH r' k x ho
     · rw [e1]; exact hlt
   have hpend := aggregate_pending B d idx ep r
@@ -262,11 +270,11 @@ theorem saneN_aggregate {nxt : Nat → Option Nat} {hd : Nat → Nat} {c B : Nat
     · intro r' k x hx; exact haddH hlt r' k x (flush_entry hx).2
     · intro r' k x hx; exact haddE r' k x (flush_entry hx).2
   · -- the round is stored: Put, callback, catch-up goroutine
-    have hd1 : PutInv nxt hd c (d.setHeld (flush (addPartial d.held r idx ep) r)) :=
+    have hd1 : PutInv nxt hd c (d.setHeld (flush (d.cacheAdd r idx ep) r)) :=
       ⟨h.clk, h.tickC, h.pendC, h.pendR, hadd.flush r, fun r' k x hx => Or.inl (haddE r' k x (flush_entry hx).2), h.pendOk⟩
     have hd2 := putInv_put hd1 r
-    have hhead : ((d.setHeld (flush (addPartial d.held r idx ep) r)).put r).head = r := put_next _ r (by simp [hr])
-    have hheld : ((d.setHeld (flush (addPartial d.held r idx ep) r)).put r).held = flush (addPartial d.held r idx ep) r :=
+    have hhead : ((d.setHeld (flush (d.cacheAdd r idx ep) r)).put r).head = r := put_next _ r (by simp [hr])
+    have hheld : ((d.setHeld (flush (d.cacheAdd r idx ep) r)).put r).held = flush (d.cacheAdd r idx ep) r :=
       (put_frame _ r).2.2.1
     have hlt2 : (d.aggregate B idx ep r).lastTick = d.lastTick := aggregate_lastTick B d idx ep r
     rw [he] at hpend hlt2 ⊢
@@ -285,11 +293,11 @@ theorem saneN_aggregate {nxt : Nat → Option Nat} {hd : Nat → Nat} {c B : Nat
     · intro r' k x hx
       show ((d.setHeld _).put r).head < r'
       rw [hhead]
-      have hx' : ((d.setHeld (flush (addPartial d.held r idx ep) r)).put r).held r' k = some x := hx
+      have hx' : ((d.setHeld (flush (d.cacheAdd r idx ep) r)).put r).held r' k = some x := hx
       rw [hheld] at hx'
       exact (flush_entry hx').1
     · intro r' k x hx
-      have hx' : ((d.setHeld (flush (addPartial d.held r idx ep) r)).put r).held r' k = some x := hx
+      have hx' : ((d.setHeld (flush (d.cacheAdd r idx ep) r)).put r).held r' k = some x := hx
       rcases hd2.heldE r' k x hx' with h5 | h5
       · exact h5
       · rw [hheld] at hx'
